@@ -6,6 +6,8 @@ CONSTANTS
   Contents = {"c1","c2"}
   Ops = {"String","Cmp025","Cmp0","EqSelf","Int"}
   Registers = FALSE
+  Sharing = FALSE
+  Plan = ""
   MaxCalls = 5
 INVARIANTS TypeOK Emit
 PROPERTIES FrozenRegsStable
